@@ -3304,9 +3304,22 @@ class UTPM(Ring, RawAlgorithmsMixIn):
             for p in range(P):
 
                 # abar.data[d,p, ...] += numpy.fft.fft(bbar.data[d,p], n=n, axis=axis)
-                numpy.add(abar.data[d,p, ...], numpy.fft.fft(bbar.data[d,p], n=n, axis=axis), out=abar.data[d,p, ...], casting="unsafe")
+                tmp = cls._fit_axis(numpy.fft.fft(bbar.data[d,p], axis=axis), a.data.shape[2:][axis], axis)
+                numpy.add(abar.data[d,p, ...], tmp, out=abar.data[d,p, ...], casting="unsafe")
 
         return abar
+
+    @staticmethod
+    def _fit_axis(t, N, axis):
+        """ adjoint of the cropping / zero-padding that fft(a, n) applies to a: crop or zero-pad t to length N """
+        n = t.shape[axis]
+        if n > N:
+            t = numpy.take(t, numpy.arange(N), axis=axis)
+        elif n < N:
+            pad = [(0,0)]*t.ndim
+            pad[axis] = (0, N - n)
+            t = numpy.pad(t, pad)
+        return t
 
     @classmethod
     def ifft(cls, a, n=None, axis=-1, out=None):
@@ -3341,7 +3354,11 @@ class UTPM(Ring, RawAlgorithmsMixIn):
 
         for d in range(D):
             for p in range(P):
-                abar.data[d,p, ...] += numpy.fft.ifft(bbar.data[d,p], n=n, axis=axis)
+                tmp = numpy.fft.ifft(bbar.data[d,p], axis=axis)
+                if n is not None:
+                    # ifft(a, n) = (1/n) * (unnormalised inverse transform of the cropped / padded a)
+                    tmp = cls._fit_axis(tmp, a.data.shape[2:][axis], axis)
+                numpy.add(abar.data[d,p, ...], tmp, out=abar.data[d,p, ...], casting="unsafe")
 
         return abar
 
